@@ -36,6 +36,16 @@ pub fn mark_job_as_done(sh: &mut shell::Shell, gid: i32, pid: i32, reason: &str)
             println_stderr!("");
             print_job(&job);
         }
+        return;
+    }
+
+    // the job still has members: if all of them are stopped, so is the job
+    let all_stopped = match sh.get_job_by_gid(gid) {
+        Some(job) => job.all_members_stopped(),
+        None => false,
+    };
+    if all_stopped {
+        sh.mark_job_as_stopped(gid);
     }
 }
 
@@ -73,10 +83,15 @@ pub fn mark_job_member_continued(sh: &mut shell::Shell, pid: i32, gid: i32) {
         gid
     };
 
-    if let Some(job) = sh.mark_job_member_continued(pid, gid) {
-        if job.all_members_running() {
-            mark_job_as_running(sh, gid, true);
-        }
+    let (all_running, all_stopped) = match sh.mark_job_member_continued(pid, gid) {
+        Some(job) => (job.all_members_running(), job.all_members_stopped()),
+        None => return,
+    };
+    if all_running {
+        mark_job_as_running(sh, gid, true);
+    } else if !all_stopped {
+        // some members are still stopped, but the job as a whole runs
+        sh.mark_job_as_partly_running(gid);
     }
 }
 
